@@ -205,6 +205,9 @@ fn int_lits(i: i64, out: &mut Vec<Case>) {
     }
     // as an operand (the literal must survive a context)
     out.push(Case::Lit { src: format!("[{i}][0]"), expect: v, form: if i < 0 { "signed" } else { "decimal" }.into() });
+    if i > 0 {
+        out.push(Case::Lit { src: format!("[-{i}, {i}, -0x{i:x}, 0x{i:x}]"), expect: Some(V::List(vec![V::Int(-i), V::Int(i), V::Int(-i), V::Int(i)])), form: "signed".into() });
+    }
 }
 
 fn uint_lits(u: u64, out: &mut Vec<Case>) {
@@ -235,6 +238,12 @@ fn double_lits(f: f64, out: &mut Vec<Case>) {
                 out.push(Case::Lit { src: format!("-.{rest}"), expect: v.clone(), form: "leading-dot".into() });
             }
         }
+    }
+    // the same spelling under both signs in one program
+    if f > 0.0 {
+        let sp = format!("{:?}", f);
+        out.push(Case::Lit { src: format!("[-{sp}, {sp}, -{sp}]"), expect: Some(V::List(vec![V::f(-f), V::f(f), V::f(-f)])), form: "shortest".into() });
+        out.push(Case::Lit { src: format!("[{sp}, -{sp}]"), expect: Some(V::List(vec![V::f(f), V::f(-f)])), form: "shortest".into() });
     }
     if f.abs() < 1e22 && f.abs() >= 1e-7 || f == 0.0 {
         out.push(Case::Lit { src: format!("{:.30}", f), expect: None, form: "skip".into() });
@@ -289,6 +298,10 @@ pub fn run(r: &mut Runner) {
     for s in ["9223372036854775808", "-9223372036854775809", "0x8000000000000000", "-0x8000000000000001", "18446744073709551616u", "0x10000000000000000u", "99999999999999999999", "99999999999999999999u", "1e309", "-1e309", "1.8e308", "2e308", "1e400", "179769313486231580793728971405303415079934132710037826936173778980444968292764750946649017977587207096330286416692887910946555547851940402630657488671505820681908902000708383676273854845817711531764475730270069855571366959622842914819860834936475292719074168444365510704342711559699508093042880177904174497792.0"] {
         fixed.push(Case::Lit { src: s.to_string(), expect: None, form: "out-of-range".into() });
         fixed.push(Case::Lit { src: format!("[{s}]"), expect: None, form: "out-of-range".into() });
+        // also where the literal would never be evaluated
+        fixed.push(Case::Lit { src: format!("true ? 1 : {s}"), expect: None, form: "out-of-range".into() });
+        fixed.push(Case::Lit { src: format!("false ? {s} : 1"), expect: None, form: "out-of-range".into() });
+        fixed.push(Case::Lit { src: format!("false && {s} == 1"), expect: None, form: "out-of-range".into() });
     }
     for s in ["", "0", "-0", "1", "-1", "9223372036854775807", "-9223372036854775808", "9223372036854775808", "-9223372036854775809", "18446744073709551615", "18446744073709551616", " 1", "1 ", "+1", "0x10", "1e3", "1.0", "abc", "１", "٣", "1_000", "--1", "é", "𝄞x", "NaN", "inf"] {
         conv_cases(&V::s(s), &mut fixed);
